@@ -186,7 +186,8 @@ func (c *cache[K, V]) DeleteExpired() error {
 
 	c.mu.Lock()
 	for k, item := range c.items {
-		if now > item.expiration && item.expiration != int64(NoExpiration) {
+		// Items without a deadline (NoExpiration, or a zero default) never expire.
+		if item.expiration > 0 && now > item.expiration {
 			if e := c.delete(k); e != nil {
 				err = errors.Join(err, e)
 			}
